@@ -13,7 +13,7 @@ package reftable
 //@ ghostgroup yielded = noneYet, yRefSeq, yRefName, yRefIdx, yRefVal, yRefValLen, yRefTV, yRefTVLen, yRefTarget, yRefDel, wRefAtYield, refsDone, yLogSeq, yLogName, yLogIdx, yLogNew, yLogNewLen, yLogOld, yLogOldLen, yLogPName, yLogEmail, yLogTime, yLogTZ, yLogMsg, wLogAtYield, logsDone
 //@ ghostgroup pv = pvPrev, pvLast, pvPrevVal, pvLastVal
 //@ ghostgroup stream = itRef, itTab, itLo, itStrict
-//@ ghostgroup taken = wRefSeq, wRefName, wRefIdx, wRefVal, wRefValLen, wRefTV, wRefTVLen, wRefTarget, wLogSeq, wLogName, wLogIdx, wLogNew, wLogNewLen, wLogOld, wLogOldLen, wLogPName, wLogEmail, wLogTime, wLogTZ, wLogMsg
+//@ ghostgroup taken = wRefSeq, wRefName, wRefIdx, wRefVal, wRefValLen, wRefTV, wRefTVLen, wRefTarget, wLogSeq, wLogName, wLogIdx, wLogNew, wLogNewLen, wLogOld, wLogOldLen, wLogPName, wLogEmail, wLogTime, wLogTZ, wLogMsg, nameChecks
 
 // The value of a k-byte varint (the "offset" encoding of the format: each continuation adds one before shifting), written
 // out for k = 1..10 bytes. Both the decoder and the encoder are specified against these closed forms (C01, layer 1).
@@ -1557,13 +1557,18 @@ package reftable
 // coarse: opens and scans the new table (read-only on the directory) and checks its names against the handle's merged
 // view. C12: that view is the resulting view only if this transaction has not already added tables of its own - the ghost
 // parameter `pending` is the number of tables the transaction holds so far.
+// trusted at the protocol level (its frame and listStable stay assumed), but the body is walked (provesonly) for the
+// one clause C12 needs from it: a nil result means the name validation ran, unless the stack was configured to skip
+// it. nameChecks counts completed calls of validateRefRecordAddition.
+//@ ghost nameChecks int
 //@ func (*Stack).checkAddition
-//@   trusted
-//@   props C12
+//@   provesonly
 //@   ghostparams pending
 //@   requires[names-are-checked-against-the-whole-transaction] {C12} s.cfg.SkipNameCheck || pending == 0
-//@   modifies buflen, bufdata, lastDelta, lastSought, listNames, listLen, lastReadNames, lastReadLen, seekOn, seekName, seekIdx, yielded, stream
+//@   modifies buflen, bufdata, lastDelta, lastSought, listNames, listLen, lastReadNames, lastReadLen, seekOn, seekName, seekIdx, yielded, stream, nameChecks
 //@   ensures listStable()
+//@   proves[accepting-a-table-means-its-names-were-validated] {C12} result == nil && !old(s.cfg.SkipNameCheck) ==> nameChecks == old(nameChecks) + 1
+//@   loop 1 invariant[no-validation-yet] {C12} nameChecks == old(nameChecks)
 
 // C04/C05/C16: a table is added to the transaction only after it has been written, closed, checked and renamed into
 // place; nothing temporary survives the call; the transaction invariant is kept.
@@ -1571,7 +1576,7 @@ package reftable
 //@   props C04 C05 C16 C08 C06 C12
 //@   callsite (*Stack).checkAddition 1 ghost pending = len(tr.newTables)
 //@   requires addInv(tr) && tr.lockFileName != ""
-//@   modifies held, ownsTmp, tblExists, fileClosed, fileOf, listNames, listLen, lastReadNames, lastReadLen, appends, commits, buflen, bufdata, lastDelta, lastSought, tr.names, tr.names[:cap(tr.names)], tr.newTables, tr.newTables[:cap(tr.newTables)], tr.nextUpdateIndex, anyof(*blockWriter), retired, rdClosed, taken, seekOn, seekName, seekIdx, yielded, anyof([]byte), anyof([]uint32), anyof([]indexRecord), pv, stream
+//@   modifies held, ownsTmp, tblExists, fileClosed, fileOf, listNames, listLen, lastReadNames, lastReadLen, appends, commits, buflen, bufdata, lastDelta, lastSought, tr.names, tr.names[:cap(tr.names)], tr.newTables, tr.newTables[:cap(tr.newTables)], tr.nextUpdateIndex, anyof(*blockWriter), retired, rdClosed, taken, seekOn, seekName, seekIdx, yielded, anyof([]byte), anyof([]uint32), anyof([]indexRecord), pv, stream, nameChecks
 //@   ensures[inv-a1] tr != nil && tr.stack == old(tr.stack) && tr.lockFileName == old(tr.lockFileName) && tr.lockFile == old(tr.lockFile) && appends == old(appends) && commits == old(commits)
 //@   ensures[inv-a2] heldWf()
 //@   ensures[inv-a3] sizesOKforStack(tr.stack)
@@ -2250,6 +2255,7 @@ package reftable
 // transaction is accepted only if every added name is valid (the other two clauses are validateAddition's, on the same lists).
 //@ func validateRefRecordAddition
 //@   props C12
+//@   sets nameChecks = nameChecks + 1
 //@   requires iref(tab) != 0
 //@   requires[records-in-key-order] forall i int, j int :: 0 <= i && i < j && j < len(refs) ==> refs[i].RefName < refs[j].RefName
 //@   modifies buflen, bufdata, lastDelta, lastSought, seekOn, seekName, seekIdx, yielded, stream, anyof(*tableIter), anyof(*indexedTableRefIter), anyof(*blockIter)
